@@ -1,32 +1,69 @@
-"""C15 — bounded caches: correspondence + monitors."""
+"""C15 — bounded caches: correspondence + monitors.
+
+Components (one per container; all driven op-by-op against the compiled Lean models):
+  lrubytes  clematis/engine/util/lru_bytes.py:LRUBytes
+  ttllru    clematis/engine/cache.py:LRUCache (+ _NamespaceCache, stable_key normalisation), injected clock
+  ttlmgr    clematis/engine/cache.py:CacheManager
+  lset      clematis/engine/util/lru_det.py:DeterministicLRUSet and util/ring.py:DeterministicLRU
+  lmap      clematis/engine/util/lru_det.py:DeterministicLRU
+  ring      clematis/engine/util/ring.py:DedupeRing
+  merge     clematis/engine/cache.py:merge_caches_deterministic
+  wrapsched clematis/engine/cache.py:ThreadSafeCache / ThreadSafeBytesCache under generated schedules
+plus a real-thread stress of the wrappers (supporting only).
+"""
 from __future__ import annotations
 
 import random
 from typing import Any, List, Tuple
 
 from harness.core import Component, Ctx, run_component
+from harness.lib.c15_ttl import TtlLruComp, TtlMgrComp, TtlLruExhaustive
+from harness.lib.c15_det import LSetComp, LMapComp, RingComp, LMapExhaustive, RingExhaustive
+from harness.lib.c15_merge import MergeComp, WrapSchedComp, thread_stress
 
-RULE = ("operation sequences over small key/cost alphabets with boundary-biased capacities (0, 1, tight, loose), "
+RULE = ("operation sequences over small key/cost alphabets with boundary-biased capacities (0, 1, tight, loose, occasionally negative), "
+        "TTLs (0, 1, small, 600, occasionally negative) and scripted clocks (steps 0, 1, ttl-1, ttl, ttl+1, occasionally backwards), "
         "generated from one seeded PRNG per component; a case is non-trivial when it triggers at least one of: "
-        "eviction, rejection, expiry, hit, update-in-place; distinct by canonical JSON of the whole sequence")
+        "eviction, rejection, expiry, hit, update-in-place, conflict, interleaving; distinct by canonical JSON of the whole sequence. "
+        "Components *_x enumerate ALL sequences of a small alphabet (ttllru_x: length<=4 over 5 ops x clock advances {0,ttl,ttl+1} x caps {1,2}; "
+        "lmap_x: length<=4 over 10 ops x caps {1,2} x both flags; ring_x: length<=5 over 7 ops x k in {1,2,3}): a seed-dependent slice in quick, the whole space in thorough")
 ASSUMPTIONS = [
-    "keys and values are mapped to naturals (hashable Python keys are only compared for equality)",
-    "capacities are non-negative (negative caps are outside every validated configuration)",
-    "threading.RLock provides mutual exclusion (wrapper methods are single atomic steps; checked structurally from the AST)",
+    "keys and values are mapped to naturals (hashable Python keys are only compared for equality); for LRUCache/CacheManager the key identity is "
+    "the harness's own normalisation (hashable as-is, else compact sorted-key JSON), checked against stable_key/_hashable_or_stable on a pool with collisions",
+    "LRUBytes capacities are non-negative (negative caps are outside every validated configuration); the TTL LRU and the deterministic containers are modelled for every integer capacity",
+    "the injected clock returns integer-valued readings (int or float), one reading per call",
+    "threading.RLock provides mutual exclusion (wrapper methods are single atomic steps; checked structurally from the AST: Clem/Gen/Locks.lean)",
+    "merge: worker_order_key / key_order_key return integers (ties allowed; Python's sorts are stable)",
 ]
 CLAIM = {
-    "text": ("Unbounded Lean theorems (induction over arbitrary operation lists) that every reachable state of each cache container "
-             "stays within its entry/byte capacity, accounts bytes exactly, keeps keys unique, evicts a strict LRU prefix, never evicts the key "
-             "just written, rejects oversized items unchanged and is inert when disabled; tied to the code by op-by-op differential execution "
-             "of the same definitions (compiled driver) against the real classes, with the invariant evaluated by Lean on the implementation's state."),
-    "note": ("Trusted: Lean kernel + propext/Classical.choice/Quot.sound; the harness; CPython dict/deque semantics; RLock mutual exclusion for "
-             "the wrappers (atomic-step obligation is structural). Keys/values abstracted to naturals; negative capacities excluded."),
+    "text": ("Unbounded Lean theorems (induction over arbitrary operation lists, every capacity/TTL setting, every clock reading) for each cache container: "
+             "LRUBytes, the TTL LRU (_NamespaceCache/LRUCache) and the namespaced CacheManager, DeterministicLRUSet, DeterministicLRU, DedupeRing — every reachable state is "
+             "within its entry/byte capacity, keys are unique, bytes/sizes/counters are accounted exactly, eviction removes a strict oldest-first prefix and never the key just written, "
+             "a TTL hit implies the entry is fresh w.r.t. the injected clock and an expired entry is removed on read, capacity 0 (or <= 0) means disabled, namespaces are independent; "
+             "merge_caches_deterministic is independent of the listing order of workers and of each worker's internal order (distinct order keys) for every target cache and is first-wins; "
+             "the lock wrappers hold the lock over every whole method body (table regenerated from the AST, decided by the kernel), so concurrent executions are exactly the interleavings "
+             "of atomic steps (linearizability theorem), every sequential invariant holds under every schedule, no operation is lost or reordered within a thread, and "
+             "(TTL off, no invalidate, cap >= number of distinct keys) every key ends with the value of the last put in the linearization (no completed put is lost). "
+             "Tied to the code by op-by-op differential execution of the same definitions (compiled driver) against the real classes with a scripted clock, "
+             "with the invariants evaluated by Lean on the implementation's state and the theorem statements re-checked as monitors on the implementation's outputs."),
+    "note": ("Trusted: Lean kernel + propext/Classical.choice/Quot.sound; the harness; CPython dict/deque/OrderedDict semantics; RLock mutual exclusion "
+             "(the atomic-step obligation is structural: whole method body under `with self._lock`). Keys/values abstracted to naturals. "
+             "stable_key / _hashable_or_stable is covered by correspondence only (key pool with unhashable keys, dict-order and str/list collisions); "
+             "LRUCache constructor argument precedence is modelled (effMax/effTtl) and covered by correspondence. "
+             "DedupeRing with discard under-counts the window by design: the invariant proved is refcount <= multiplicity (equality for discard-free histories; "
+             "machine-checked witness that equality fails with discard). Real-thread runs of the wrappers are supporting stress only; the deciding argument for "
+             "'no lost update under threads' is lock coverage + the interleaving theorem + the sequential theorems. Negative LRUBytes capacities excluded."),
     "technique": "Lean 4 invariant proofs by induction over operation sequences + exact op-by-op correspondence with the Python containers",
     "design_ref": "DESIGN.md §4 C15",
 }
-DRIVER_MODULES = ["HLruBytes"]
+DRIVER_MODULES = ['HLruBytes', 'HTtlLru', 'HDetLru', 'HCacheMerge']
+TABLES = ['locks']
 MODELLED = {
     "clematis/engine/util/lru_bytes.py": ["LRUBytes"],
+    "clematis/engine/cache.py": ["_NamespaceCache", "LRUCache", "CacheManager", "stable_key", "ThreadSafeCache",
+                                 "ThreadSafeBytesCache", "merge_caches_deterministic"],
+    "clematis/engine/util/lru_det.py": ["DeterministicLRUSet", "DeterministicLRU"],
+    "clematis/engine/util/ring.py": ["DedupeRing", "DeterministicLRU"],
 }
 TRUSTED = ["modelled, not verified: CPython dict/deque/OrderedDict semantics; RLock mutual exclusion"]
 
@@ -145,14 +182,23 @@ class LruBytesComp(Component):
             yield dict(case, ops=ops[:i] + ops[i + 1:])
 
 
-COMPONENTS = [LruBytesComp()]
+
+COMPONENTS = [LruBytesComp(), TtlLruComp(), TtlMgrComp(), LSetComp(), LMapComp(), RingComp(), MergeComp(), WrapSchedComp(),
+              TtlLruExhaustive(), LMapExhaustive(), RingExhaustive()]
 
 
 def run(ctx: Ctx) -> None:
     for comp in COMPONENTS:
         run_component(ctx, comp)
+    rounds = {"quick": 4, "thorough": 40}.get(ctx.tier, 40)
+    if "thread_stress" not in ctx.extra or ctx.tier == "search":
+        ctx.extra["thread_stress"] = thread_stress(ctx, rounds)
 
 
 def replay(ctx: Ctx, rec: dict) -> int:
     from harness.core import generic_replay
+    if rec.get("component") == "wrapstress":
+        st = thread_stress(ctx, 40)
+        print(f"REPLAY wrapstress {st}")
+        return 1 if st["failures"] else 0
     return generic_replay(ctx, rec, {c.name: c for c in COMPONENTS})
